@@ -12,7 +12,10 @@
 (*                                                                         *)
 (* Abstractions: keys are 1..NKeys in byte order; every leaf element has    *)
 (* the same size LeafElem (32 + key + value bytes), every branch element    *)
-(* BranchElem (24 + key bytes); a value is a small version number; page ids *)
+(* BranchElem (24 + key bytes); a value is a small version number (1, 2 a    *)
+(* pair; 10, 11 the entry of a nested bucket, which changes when the nested  *)
+(* bucket was modified: nested buckets are entries of this tree, their own   *)
+(* trees are not modelled); page ids                                         *)
 (* are never reused inside the model (reuse is L1's business), but every    *)
 (* free_page is recorded so that leaks and double use are visible; a run of *)
 (* overflow pages is one page.                                              *)
@@ -121,6 +124,30 @@ Del(s, k) ==
                  ELSE LET id == s1.pnode[last[1]]
                       IN  [s1 EXCEPT !.nodes[id].keys = RemoveAt(@, last[2]),
                                      !.nodes[id].kids = RemoveAt(@, last[2]), !.dirty = TRUE]
+
+\* ---- nested buckets: entries of this tree ------------------------------
+\* s.open: InnerBucket::buckets, the nested buckets this transaction has opened, with the entry value that
+\* spill will write for each (put_leaf for EVERY opened bucket, after merge_nodes, in HashMap order)
+\* create_bucket (bucket_getter with should_create): the entry is inserted at once
+MkB(s, k) ==
+    LET s1 == Put(s, k, 10)
+    IN  IF s1.panic # "" THEN s1 ELSE [s1 EXCEPT !.open = (k :> 10) @@ @]
+\* get_bucket + a modification inside the nested bucket: nothing changes here until spill
+Touch(s, k, v) ==
+    LET r == Search(s, k)
+    IN  [r.s EXCEPT !.open = (k :> v) @@ @, !.dirty = TRUE]
+\* delete_bucket: the entry is removed (the nested bucket's own pages are L1's business)
+DelB(s, k) ==
+    LET r0 == Search(s, k)             \* get_bucket: search (the bucket enters the map and leaves it again)
+        s1 == Del(r0.s, k)
+    IN  [s1 EXCEPT !.open = [x \in DOMAIN @ \ {k} |-> @[x]]]
+\* InnerBucket::spill, first half: the entries of the opened nested buckets are written back
+PutOpened(s, order) ==
+    LET F[i \in 0..Len(order)] ==
+            IF i = 0 THEN s
+            ELSE IF F[i - 1].panic # "" THEN F[i - 1]
+            ELSE Put(F[i - 1], order[i], s.open[order[i]])
+    IN  F[Len(order)]
 
 \* get: the value version, 0 if absent
 Get(s, k) ==
@@ -411,10 +438,12 @@ SpillNode(s, id, par) ==
                      THEN [s |-> Panic(r.s, "New parent did not return a new root_page_id"), root |-> 0]
                      ELSE r
 
-\* tx commit for this bucket: rebalance, then spill; the new root page
-CommitTree(s) ==
+\* tx commit for this bucket: rebalance, then spill (nested bucket entries, then the nodes); the new root page.
+\* order: the sequence in which the opened nested buckets are written back (a permutation of DOMAIN s.open)
+CommitTree(s, order) ==
     IF ~s.dirty THEN s
-    ELSE LET s1 == MergeNodes(s)
+    ELSE LET s0 == MergeNodes(s)
+             s1 == IF s0.panic # "" THEN s0 ELSE PutOpened(s0, order)
          IN  IF s1.panic # "" THEN s1
              ELSE IF s1.root \notin DOMAIN s1.pnode THEN Panic(s1, "root page has no node at spill")
              ELSE LET r == SpillNode(s1, s1.pnode[s1.root], 0)
